@@ -6,10 +6,13 @@ import (
 	"fmt"
 	"reflect"
 	"strconv"
+	"math/big"
 	"strings"
 	"sync"
+	"time"
 
 	kmip "github.com/ovh/kmip-go"
+	"github.com/ovh/kmip-go/payloads"
 	"github.com/ovh/kmip-go/ttlv"
 
 	"verifharness/internal/report"
@@ -183,6 +186,9 @@ func planCase(ctx *Ctx, s *schema.Schema, tg planTarget, x reflect.Value, confor
 	if !conforming {
 		return b
 	}
+	// the hypothesis of the C01 theorem, evaluated by the model on this very value: what the populator calls a
+	// well-formed message must satisfy `Conforms` (a value `Conforms` silently excludes shows up as "ok 0").
+	ctx.Add(fmt.Sprintf("plan.conforms %d %d %s", tg.dyn, tg.tag, val), "ok 1", true, "C01")
 	// ---- C01 oracle on the real code (no model involved) ----
 	switch {
 	case dimpl == "panic":
@@ -201,9 +207,289 @@ func planCase(ctx *Ctx, s *schema.Schema, tg planTarget, x reflect.Value, confor
 			if re == "panic" || !bytes.Equal(rb, b) {
 				ctx.Res.Violate(report.Violation{Property: "C01", Oracle: "reencode-identical", Key: "plan:reencode-differs:" + s.Dyns[tg.dyn].GoType, Detail: "re-encoding the decoded message does not give the identical bytes", Line: line})
 			}
+			planEntryPoints(ctx, s, tg, x, b, got, line)
+			everyItemMatters(ctx, s, tg, b, got, line)
 		}
 	}
 	return b
+}
+
+// planEntryPoints: the other public ways to run the same codec give the same result: MarshalTTLV on the struct
+// VALUE (not a pointer), Encoder.Any / TagAny on a cleared encoder, NewTTLVDecoder + Decoder.Any.
+func planEntryPoints(ctx *Ctx, s *schema.Schema, tg planTarget, x reflect.Value, b []byte, rendered string, line string) {
+	bad := func(what, detail string) {
+		ctx.Res.Violate(report.Violation{Property: "C01", Oracle: "entry-points", Key: "plan:entry-point-differs:" + what, Detail: what + ": " + detail, Line: line})
+	}
+	if tg.tag == 0 && x.Kind() == reflect.Pointer && x.Elem().Kind() == reflect.Struct {
+		got, p := guard("MarshalTTLV(value)", func() []byte { return ttlv.MarshalTTLV(x.Elem().Interface()) })
+		if p != "" || !bytes.Equal(got, b) {
+			bad("MarshalTTLV on the struct value", "differs from MarshalTTLV on the pointer "+p)
+		}
+		ctx.Res.Count("plan.entry.by-value")
+	}
+	got, p := guard("Encoder.Any", func() []byte {
+		e := ttlv.NewTTLVEncoder()
+		e.Integer(0x420001, 1) // earlier content, then Clear
+		e.Clear()
+		if tg.tag == 0 {
+			e.Any(x.Interface())
+		} else {
+			e.TagAny(tg.tag, x.Interface())
+		}
+		return append([]byte{}, e.Bytes()...)
+	})
+	if p != "" || !bytes.Equal(got, b) {
+		bad("Encoder.Any after Clear", "differs from MarshalTTLV "+p)
+	}
+	if tg.tag == 0 {
+		type out struct {
+			s   string
+			err error
+		}
+		r, p := guard("Decoder.Any", func() out {
+			var ptr reflect.Value
+			if tg.ty.Kind() == reflect.Pointer {
+				ptr = reflect.New(tg.ty.Elem())
+			} else {
+				ptr = reflect.New(tg.ty)
+			}
+			dec, err := ttlv.NewTTLVDecoder(append([]byte{}, b...))
+			if err != nil {
+				return out{err: err}
+			}
+			if err := dec.Any(ptr.Interface()); err != nil {
+				return out{err: err}
+			}
+			val := ptr
+			if tg.ty.Kind() != reflect.Pointer {
+				val = ptr.Elem()
+			}
+			str, err := s.Render(val, s.Dyns[tg.dyn].Kind)
+			return out{str, err}
+		})
+		if p != "" || r.err != nil || r.s != rendered {
+			bad("NewTTLVDecoder+Decoder.Any", fmt.Sprintf("differs from UnmarshalTTLV %s %v", p, r.err))
+		}
+		ctx.Res.Count("plan.entry.decoder-any")
+	}
+}
+
+// everyItemMatters: "the encoding carries exactly the elements populated … nothing added": removing any single
+// item of the encoding (at any depth) must change what the library decodes (or make it fail). An element the
+// encoder adds but the decoder does not read back — which the decode/re-encode comparison cannot see, because
+// the decoder drops unread trailing children silently — is exactly an item whose removal changes nothing.
+// Leaf items holding the zero value of their type are exempt (an optional element explicitly present with its
+// zero value, e.g. ResultReason 0 of a failed item, decodes like its absence).
+func everyItemMatters(ctx *Ctx, s *schema.Schema, tg planTarget, b []byte, decoded string, line string) {
+	if len(b) > 1<<15 {
+		return
+	}
+	type span struct{ off, end int }
+	var spans []span
+	var parents [][]int // offsets of the enclosing structures' length fields
+	var walk func(off, end int, up []int)
+	walk = func(off, end int, up []int) {
+		for off+8 <= end {
+			l := int(b[off+4])<<24 | int(b[off+5])<<16 | int(b[off+6])<<8 | int(b[off+7])
+			pl := (l + 7) / 8 * 8
+			if off+8+pl > end {
+				return
+			}
+			zero := b[off+3] != 1
+			for _, x := range b[off+8 : off+8+l] {
+				if x != 0 {
+					zero = false
+				}
+			}
+			if len(up) > 0 && !zero {
+				spans = append(spans, span{off, off + 8 + pl})
+				parents = append(parents, up)
+			}
+			if b[off+3] == 1 {
+				walk(off+8, off+8+l, append(append([]int{}, up...), off+4))
+			}
+			off += 8 + pl
+		}
+	}
+	walk(0, len(b), nil)
+	if len(spans) > 400 {
+		return
+	}
+	ctx.Res.Count("plan.every-item-matters")
+	for i, sp := range spans {
+		m := append(append([]byte{}, b[:sp.off]...), b[sp.end:]...)
+		for _, lo := range parents[i] {
+			l := int(m[lo])<<24 | int(m[lo+1])<<16 | int(m[lo+2])<<8 | int(m[lo+3])
+			l -= sp.end - sp.off
+			m[lo], m[lo+1], m[lo+2], m[lo+3] = byte(l>>24), byte(l>>16), byte(l>>8), byte(l)
+		}
+		got, _ := unmarshalInto(s, tg, m)
+		if got == "ok "+decoded {
+			tag := int(b[sp.off])<<16 | int(b[sp.off+1])<<8 | int(b[sp.off+2])
+			ctx.Res.Violate(report.Violation{Property: "C01", Oracle: "every-item-matters", Key: fmt.Sprintf("plan:item-without-content:%s:%06X", s.Dyns[tg.dyn].GoType, tag),
+				Detail: fmt.Sprintf("the encoding contains an item (tag %06X, type %d, at offset %d) whose removal does not change the decoded message: an element was added that is not content of the message, or the decoder ignores it", tag, b[sp.off+3], sp.off), Line: line})
+			return
+		}
+	}
+}
+
+// planSizeWitnesses: size classes reached by construction, not by chance: long batches, long attribute lists,
+// 70000-byte strings and key material, 65536-bit and negative big integers in transparent keys.
+func planSizeWitnesses(ctx *Ctx, s *schema.Schema, reqT, respT planTarget, note func(string)) {
+	r := ctx.R
+	hdr := func(m int32, n int) kmip.RequestHeader {
+		return kmip.RequestHeader{ProtocolVersion: kmip.ProtocolVersion{ProtocolVersionMajor: 1, ProtocolVersionMinor: m}, BatchCount: int32(n)}
+	}
+	rhdr := func(m int32, n int) kmip.ResponseHeader {
+		return kmip.ResponseHeader{ProtocolVersion: kmip.ProtocolVersion{ProtocolVersionMajor: 1, ProtocolVersionMinor: m}, BatchCount: int32(n), TimeStamp: time.Unix(1700000000, 0)}
+	}
+	long := func(n int) string {
+		b := make([]byte, n)
+		for i := range b {
+			b[i] = byte('a' + (i*7+n)%26)
+		}
+		return string(b)
+	}
+	pow := func(bits uint, d int64) *big.Int {
+		v := new(big.Int).Lsh(big.NewInt(1), bits)
+		return v.Add(v, big.NewInt(d))
+	}
+	for _, n := range []int{16, 17, 64, 200, ctx.N(255, 1000)} {
+		// long request batch: Get / Locate-with-attributes alternating
+		req := &kmip.RequestMessage{Header: hdr(int32(n%5), n)}
+		for i := 0; i < n; i++ {
+			var pl kmip.OperationPayload = &payloads.GetRequestPayload{UniqueIdentifier: fmt.Sprintf("id-%d", i)}
+			if i%2 == 1 {
+				pl = &payloads.DestroyRequestPayload{UniqueIdentifier: long(i % 40)}
+			}
+			req.BatchItem = append(req.BatchItem, kmip.RequestBatchItem{Operation: pl.Operation(), UniqueBatchItemID: []byte{byte(i >> 8), byte(i)}, RequestPayload: pl})
+		}
+		planCase(ctx, s, reqT, reflect.ValueOf(req), true)
+		note("batch.req." + lenBucket(n))
+		resp := &kmip.ResponseMessage{Header: rhdr(int32(n%5), n)}
+		for i := 0; i < n; i++ {
+			bi := kmip.ResponseBatchItem{Operation: kmip.OperationDestroy, UniqueBatchItemID: []byte{byte(i >> 8), byte(i)}, ResponsePayload: &payloads.DestroyResponsePayload{UniqueIdentifier: fmt.Sprintf("id-%d", i)}}
+			if i%3 == 2 {
+				bi = kmip.ResponseBatchItem{Operation: kmip.OperationGet, ResultStatus: kmip.ResultStatusOperationFailed, ResultReason: kmip.ResultReasonItemNotFound, ResultMessage: long(i % 50)}
+			}
+			resp.BatchItem = append(resp.BatchItem, bi)
+		}
+		planCase(ctx, s, respT, reflect.ValueOf(resp), true)
+		note("batch.resp." + lenBucket(n))
+	}
+	for _, n := range []int{299, 300, 4095, 4096, 8192, 65535, 65536, 70000} {
+		// long text and byte strings in typed fields, long raw key material
+		req := &kmip.RequestMessage{Header: hdr(2, 1), BatchItem: []kmip.RequestBatchItem{{Operation: kmip.OperationGet, UniqueBatchItemID: r.Bytes(n), RequestPayload: &payloads.GetRequestPayload{UniqueIdentifier: long(n)}}}}
+		planCase(ctx, s, reqT, reflect.ValueOf(req), true)
+		note("text." + sizeBucket(n))
+		note("bytes." + sizeBucket(n))
+		raw := r.Bytes(n + 1)
+		sd := &kmip.SecretData{SecretDataType: kmip.SecretDataTypePassword, KeyBlock: kmip.KeyBlock{KeyFormatType: kmip.KeyFormatTypeRaw,
+			KeyValue: &kmip.KeyValue{Plain: &kmip.PlainKeyValue{KeyMaterial: kmip.KeyMaterial{Bytes: &raw}}}}}
+		resp := &kmip.ResponseMessage{Header: rhdr(4, 1), BatchItem: []kmip.ResponseBatchItem{{Operation: kmip.OperationGet,
+			ResponsePayload: &payloads.GetResponsePayload{ObjectType: kmip.ObjectTypeSecretData, UniqueIdentifier: long(n - 1), Object: sd}}}}
+		planCase(ctx, s, respT, reflect.ValueOf(resp), true)
+		note("bytes." + sizeBucket(n+1))
+	}
+	for _, bits := range []uint{255, 256, 2047, 2048, 4095, 4096, 16384, 65535, 65536} {
+		// transparent RSA key: modulus at the boundary, negative and sign-boundary components
+		key := &kmip.TransparentRSAPrivateKey{Modulus: *pow(bits, -1), PrivateExponent: new(big.Int).Neg(pow(bits-1, 0)),
+			PublicExponent: big.NewInt(65537), P: pow(bits/2, 1), Q: new(big.Int).Neg(pow(bits/2, -1)), CRTCoefficient: big.NewInt(-1)}
+		pk := &kmip.PrivateKey{KeyBlock: kmip.KeyBlock{KeyFormatType: kmip.KeyFormatTypeTransparentRSAPrivateKey, CryptographicAlgorithm: kmip.CryptographicAlgorithmRSA, CryptographicLength: int32(bits),
+			KeyValue: &kmip.KeyValue{Plain: &kmip.PlainKeyValue{KeyMaterial: kmip.KeyMaterial{TransparentRSAPrivateKey: key}}}}}
+		req := &kmip.RequestMessage{Header: hdr(int32(bits%5), 1), BatchItem: []kmip.RequestBatchItem{{Operation: kmip.OperationRegister,
+			RequestPayload: &payloads.RegisterRequestPayload{ObjectType: kmip.ObjectTypePrivateKey, Object: pk}}}}
+		planCase(ctx, s, reqT, reflect.ValueOf(req), true)
+		note("big.bits." + sizeBucket(int(bits)))
+		note("big.negative")
+	}
+	for _, n := range []int{16, 17, 150} {
+		// long attribute lists (slice of a hand-decoded struct inside a reflective one)
+		var attrs []kmip.Attribute
+		for i := 0; i < n; i++ {
+			idx := int32(i)
+			attrs = append(attrs, kmip.Attribute{AttributeName: kmip.AttributeNameName, AttributeIndex: &idx,
+				AttributeValue: kmip.Name{NameValue: fmt.Sprintf("n%d", i), NameType: kmip.NameTypeUninterpretedTextString}})
+		}
+		req := &kmip.RequestMessage{Header: hdr(3, 1), BatchItem: []kmip.RequestBatchItem{{Operation: kmip.OperationLocate, RequestPayload: &payloads.LocateRequestPayload{Attribute: attrs}}}}
+		planCase(ctx, s, reqT, reflect.ValueOf(req), true)
+		note("slice." + lenBucket(n))
+	}
+}
+
+// planCoverageFloors: the claim "every registered operation / object type / key format / attribute name /
+// credential type, every size class" is checked against what the populator actually produced in this run
+// (names from the live registries); a class below its floor fails the run instead of passing silently.
+func planCoverageFloors(ctx *Ctx, s *schema.Schema) {
+	d := ctx.Res.Distribution
+	var missed []string
+	need := func(key string, floor int) {
+		if d["cov."+key] < floor {
+			missed = append(missed, fmt.Sprintf("%s=%d<%d", key, d["cov."+key], floor))
+		}
+	}
+	for _, op := range s.Ops {
+		need(fmt.Sprintf("op.req.%d", op.Op), 3)
+		need(fmt.Sprintf("op.resp.%d", op.Op), 3)
+	}
+	need("op.req.unknown", 3)
+	need("op.resp.unknown", 3)
+	need("resp.failed", 10)
+	need("msgext.req", 10)
+	need("msgext.resp", 10)
+	for _, o := range s.Objects {
+		need(fmt.Sprintf("object.%d", o.ObjectType), 3)
+	}
+	for _, kf := range keyFormats {
+		need(fmt.Sprintf("keyfmt.plain.%d", uint32(kf)), 2)
+	}
+	need("keyfmt.wrapped", 3)
+	need("keyfmt.no-value", 2)
+	for _, a := range s.Attrs {
+		need("attr.name."+a.Name, 2)
+	}
+	need("attr.custom", 3)
+	need("attr.unknown", 3)
+	need("attr.index", 5)
+	for c := 1; c <= 3; c++ {
+		need(fmt.Sprintf("credential.%d", c), 2)
+	}
+	for m := 0; m <= 4; m++ {
+		need(fmt.Sprintf("ver.1.%d", m), 10)
+	}
+	need("ver.other", 5)
+	for _, dir := range []string{"req", "resp"} {
+		for _, bk := range []string{"1-3", "4-16", "17+"} {
+			need("batch."+dir+"."+bk, 2)
+		}
+	}
+	need("batch.req.0", 2)
+	need("slice.4-16", 20)
+	need("slice.17+", 5)
+	need("text.300-4095", 3)
+	need("text.4096+", 2)
+	need("bytes.300-4095", 3)
+	need("bytes.4096+", 2)
+	need("big.bits.300-4095", 3)
+	need("big.bits.4096+", 1)
+	need("big.negative", 5)
+	for id := range dynTypes {
+		if dynTypes[id] != reflect.TypeFor[ttlv.Value]() {
+			need("standalone."+s.Dyns[id].GoType, 1)
+		}
+	}
+	if len(missed) > 0 {
+		sortStrings(missed)
+		ctx.Res.Fail("plan: coverage floors missed (the generator no longer reaches these input classes): " + strings.Join(missed, " "))
+	}
+}
+
+func sortStrings(a []string) {
+	for i := 1; i < len(a); i++ {
+		for j := i; j > 0 && a[j] < a[j-1]; j-- {
+			a[j], a[j-1] = a[j-1], a[j]
+		}
+	}
 }
 
 func firstDiff(a, b string) string {
@@ -303,22 +589,35 @@ func runPlan(ctx *Ctx) {
 	reqT := planTarget{s.Roots["RequestMessage"], reflect.TypeFor[*kmip.RequestMessage](), 0}
 	respT := planTarget{s.Roots["ResponseMessage"], reflect.TypeFor[*kmip.ResponseMessage](), 0}
 	n := ctx.N(600, 20000)
+	cyc := &cycler{}
+	note := func(k string) { ctx.Res.Count("cov." + k) }
 	for i := 0; i < n; i++ {
 		tg := reqT
 		if i%2 == 1 {
 			tg = respT
 		}
-		p := &popCfg{r: r, s: s, fill: i % 3, respectGating: true}
+		p := &popCfg{r: r, s: s, fill: i % 3, respectGating: true, cyc: cyc, note: note, wideVersions: true}
+		// sizes: 1 in 4 messages medium (batches/slices up to 16, strings to 300 bytes, 4096-bit integers),
+		// 1 in 15 large (batches/slices 17..200, strings to 70000 bytes, 65536-bit integers)
+		switch {
+		case i%30 == 13 || i%30 == 28:
+			p.size, p.budget, p.fill = 2, 600, 1+i%2
+		case i%8 == 3 || i%8 == 6:
+			p.size, p.budget = 1, 0
+		}
 		x := reflect.New(tg.ty.Elem())
 		p.populate(x.Elem())
 		b := planCase(ctx, s, tg, x, true)
 		ctx.Res.Count(fmt.Sprintf("plan.msg.fill=%d", p.fill))
+		ctx.Res.Count(fmt.Sprintf("plan.msg.size=%d", p.size))
+		ctx.Res.Count("plan.msg.bytes." + sizeBucket(len(b)))
 		if b != nil && i%2 == 0 {
 			for _, m := range mutate(r, b) {
 				planDecCase(ctx, s, tg, m, "mutated")
 			}
 		}
 	}
+	planSizeWitnesses(ctx, s, reqT, respT, note)
 	// every registered dynamic type standalone (payloads, objects, attribute values)
 	per := ctx.N(6, 120)
 	for id, ty := range dynTypes {
@@ -348,8 +647,14 @@ func runPlan(ctx *Ctx) {
 				tg.tag = kmip.TagAttributeValue
 			}
 		}
+		ctx.Res.Count("cov.standalone." + s.Dyns[id].GoType)
 		for k := 0; k < per; k++ {
-			p := &popCfg{r: r, s: s, fill: k % 3, respectGating: true}
+			p := &popCfg{r: r, s: s, fill: k % 3, respectGating: true, cyc: cyc, note: note}
+			if k%6 == 4 {
+				p.size, p.budget = 1, 0
+			} else if k%6 == 5 {
+				p.size, p.budget, p.fill = 2, 300, 2
+			}
 			var x reflect.Value
 			if ty.Kind() == reflect.Pointer {
 				x = reflect.New(ty.Elem())
@@ -375,6 +680,7 @@ func runPlan(ctx *Ctx) {
 		planDecCase(ctx, s, reqT, b, "corpus")
 		planDecCase(ctx, s, respT, b, "corpus")
 	}
+	planCoverageFloors(ctx, s)
 }
 
 func sortInts(a []int) {
